@@ -864,7 +864,21 @@ class Extractor:
         self.digest["facts"]["pipeTargetWeak"] = weak
         # critical sections of the producing poll function of pipe()
         o, c = find_fn(toks, "pipe")
-        secs = self.lock_sections(toks, o, c, ["stream_core"], fields)
+        # the local through which the poll function reaches the stream core: the one bound from `.upgrade()` (the core is held
+        # weakly), or the one an `if let Some(..)` re-binds it to -- whatever these locals are called
+        guards = []
+        for k in range(o, c - 3):
+            if names[k:k + 3] == [".", "upgrade", "("] and names[k - 2] == "=" and names[k - 4] in ("let", "mut"):
+                guards.append(names[k - 3])
+        for g in list(guards):
+            for k in range(o, c - 6):
+                if names[k:k + 3] == ["Some", "(", names[k + 2]] and names[k + 3] == ")" and names[k + 4] == "=" and names[k + 5] == g and names[k + 2] not in guards:
+                    guards.append(names[k + 2])
+        found = [(g, self.lock_sections(toks, o, c, [g], fields)) for g in guards]
+        found = [(g, x) for g, x in found if x]
+        if len(found) != 1:
+            raise Unsupported("pipe: cannot tell through which local the poll function locks the stream core (candidates %r)" % [g for g, _ in found])
+        secs = found[0][1]
         self.out.append("/-- pipe.rs `pipe`: the critical sections the producing poll function takes on the stream core, in source order, with the core fields each one touches -/")
         self.out.append("def pipeProducerSections : List (List String) := [%s]\n" % ", ".join("[" + ", ".join('"%s"' % f for f in sec) + "]" for sec in secs))
         self.digest["facts"]["pipeProducerSections"] = secs
